@@ -64,7 +64,7 @@ import re
 import xml.etree.ElementTree as ET
 from argparse import Namespace
 from collections import Counter
-from datetime import datetime, timezone
+from datetime import datetime, timedelta, timezone
 from pathlib import Path
 from typing import Any
 
@@ -83,7 +83,7 @@ ASSUMPTIONS = [
     "the process time zone is switched with TZ + tzset (lib.ProcessTZ, which verifies that localtime follows); zones and DST switch instants from the system tz database, cross-checked against the published 2025 rules in harness/tzenv.py; cases without \"tz\" run under UTC (set explicitly)",
     "a configured validity without UTC designator is read as UTC by the oracle and the model (the repository's documented reading of its own timestamps); what the exporter does with it under other process zones is recorded as boundary naive-validity",
 ]
-TRUSTED = ["harness/p11emu.py token emulator", "dnspython (independent DS / key tag)", "xml.etree.ElementTree (standard XML parser)"]
+TRUSTED = ["harness/p11emu.py token emulator", "dnspython (independent DS / key tag)", "xml.etree.ElementTree (standard XML parser; compared with the Lean specification reader XmlSpec.stdRead on every document)"]
 
 SCRATCH = lib.VERIF / ".scratch" / "pkgI" / "ta"
 WHAT_DS = "exported DS differs from the independently computed RFC value"
@@ -871,6 +871,221 @@ def compare_model(case: dict[str, Any], run: dict[str, Any], o: dict[str, Any], 
             res.disagreement("trustanchor: documents differ although the order is determined", case, run["doc"], mo["content"])
 
 
+# ---------------------------------------------------------------------------------------------------------------------
+# "The exported document is well-formed XML and MEANS the anchor" — three-way: the text the real code wrote, the
+# specification reader `XmlSpec.stdRead` of the Lean side (theorem C18_document_wellformed is about it), ElementTree.
+# ---------------------------------------------------------------------------------------------------------------------
+
+WHAT_MEANING = "the exported document does not mean the trust anchor (clean free text, standard XML reading differs from the anchor's fields)"
+
+# identifiers through the real `trustanchor` entry point: XML-significant characters, white space a reader normalises,
+# characters outside XML's Char production, non-ASCII, attribute / element / comment injection, references
+HOSTILE_IDS = [
+    'a"', '"', "a<", "<", "&", "a&amp;b", "a&#65;b", "a&b;", "a>b", "a]]>b", "a'b\"c", "a\tb", "a\nb", "a\rb", "a\r\nb", " a ", "a  b",
+    "éü€", "\U0001F600", "a\x01b", "a\x7fb", "a\ufffeb", "a\uffffb", "a\u0085b", "a\u2028b",
+    'a" x="1', 'a" id="b', 'a" source="q', 'a" x="1" x="2', 'a"x="1', 'a" x ="1', 'a" x = "1', "a\" x='1'", 'a" x="<', 'a" x="&', 'a" 1x="1', 'a" -x="1',
+    'a" é="1', 'a" xé="1', 'a" xmlns="urn:x', 'a" p:q="1', 'a" x="1\ty',
+    'a"><Zone>evil</Zone><X y="', 'a"/><!--', 'a"><!-- c --><X y="', 'a"><?pi?><X y="', 'a"><![CDATA[x]]><X y="', 'a"></TrustAnchor><TrustAnchor id="b',
+    'a" >\n<Zone>.</Zone>\n</TrustAnchor>\n<!-- ', 'a"\n\tx="1', 'a"\r\nx="1',
+]
+HOSTILE_PIECES = ['"', "<", "&", ">", "'", " ", "\t", "\n", "\r", "\r\n", "é", "€", "\U0001F600", "\x01", "\x7f", "\ufffe", "]]>", "&amp;", "&#65;", "<!--", "-->",
+                  "<?", "?>", "/>", "=", 'x="1"', ' id="z"', ' y="', ' xmlns="u"', " p:q=\"1\"", "a", "B", "0", "-", ".", "_", ":", "/", "</Zone>", "<Zone>"]
+
+
+def hostile_text(r: Any) -> str:
+    return "".join(r.choice(HOSTILE_PIECES) for _ in range(r.randint(1, 6)))
+
+
+def hostile_id_cases(r: Any, n_random: int) -> list[dict[str, Any]]:
+    """The unescaped-identifier boundary widened (same variant, same handling in judge()): what the real entry point writes
+    for such an identifier goes to the specification reader and to ElementTree."""
+    out = []
+    for ident in HOSTILE_IDS + [hostile_text(r) for _ in range(n_random)]:
+        c = gen_case(r, r.choice([0, 1, 2]))
+        c["id"] = ident
+        c["variant"] = "boundary-id"
+        c["hostile"] = True
+        out.append(c)
+    return out
+
+
+def xml_char(c: str) -> bool:
+    """XML 1.0 production [2] Char."""
+    o = ord(c)
+    return o in (9, 10, 13) or 0x20 <= o <= 0xD7FF or 0xE000 <= o <= 0xFFFD or 0x10000 <= o <= 0x10FFFF
+
+
+def attr_clean(s: str) -> bool:
+    """free text that means itself inside a double-quoted attribute value (XML 1.0 [10], 3.3.3)"""
+    return all(c not in '"<&\t\n\r' and xml_char(c) for c in s)
+
+
+def text_clean(s: str) -> bool:
+    """free text that means itself as element content (XML 1.0 [14], 2.11)"""
+    return all(c not in "<&>\r" and xml_char(c) for c in s)
+
+
+def et_tree(e: ET.Element) -> dict[str, Any]:
+    ch: list[dict[str, Any]] = []
+    if e.text:
+        ch.append({"text": e.text})
+    for k in e:
+        ch.append(et_tree(k))
+        if k.tail:
+            ch.append({"text": k.tail})
+    return {"name": e.tag, "attrs": [[a, v] for a, v in e.attrib.items()], "children": ch}
+
+
+def et_read(text: str) -> Any:
+    try:
+        return {"tree": et_tree(ET.fromstring(text))}
+    except ET.ParseError:
+        return "malformed"
+
+
+def uses_namespaces(t: dict[str, Any]) -> bool:
+    if "text" in t:
+        return False
+    return any(a == "xmlns" for a, _ in t["attrs"]) or any(uses_namespaces(k) for k in t["children"])
+
+
+def compare_std_read(case: Any, text: str, m: Any, res: Result, tag: str) -> Any:
+    """model's specification reader `m` vs ElementTree on the same text.  Returns ElementTree's reading."""
+    e = et_read(text)
+    if m == "outside":
+        res.unsupported += 1
+        res.bump(f"stdread:{tag}:outside-the-subset:elementtree-" + ("malformed" if e == "malformed" else "reads"))
+        return e
+    if m == "malformed":
+        res.bump(f"stdread:{tag}:malformed")
+        if e != "malformed":
+            res.disagreement("std_read: the specification reader says malformed, ElementTree reads the document", case, e, m, text=text[:300])
+        return e
+    if not (isinstance(m, dict) and "tree" in m):
+        res.disagreement("std_read: driver error", case, e, m)
+        return e
+    if uses_namespaces(m["tree"]):
+        res.unsupported += 1
+        res.bump(f"stdread:{tag}:outside-the-subset:xmlns")  # ElementTree processes namespaces; XML 1.0 proper (and the specification reader) does not
+        return e
+    res.bump(f"stdread:{tag}:tree")
+    if e != m:
+        res.disagreement("std_read: the specification reader and ElementTree read different trees", case, e, m, text=text[:300])
+    return e
+
+
+def expected_tree(a: dict[str, Any]) -> dict[str, Any]:
+    """RFC 7958 / the property text: what the document of this anchor must mean (written from the anchor's fields, not from the writer)"""
+    def leaf(name: str, text: str) -> dict[str, Any]:
+        return {"name": name, "attrs": [], "children": [{"text": text}] if text else []}
+
+    def stamp_(us: int) -> str:
+        return (lib.EPOCH + timedelta(microseconds=us)).astimezone(timezone.utc).replace(microsecond=0).isoformat()
+
+    nl = {"text": "\n"}
+    kids = [nl, leaf("Zone", a["zone"]), nl]
+    for d in sorted(a["keyDigests"], key=lambda d: d["validFrom"]):
+        attrs = [["id", d["id"]], ["validFrom", stamp_(d["validFrom"])]]
+        if d["validUntil"] is not None:
+            attrs.append(["validUntil", stamp_(d["validUntil"])])
+        kids += [{"name": "KeyDigest", "attrs": attrs, "children": [nl, leaf("KeyTag", str(d["keyTag"])), nl, leaf("Algorithm", str(d["algorithm"])), nl,
+                                                                     leaf("DigestType", str(d["digestType"])), nl, leaf("Digest", d["digest"].upper()), nl]}, nl]
+    return {"name": "TrustAnchor", "attrs": [["id", a["id"]], ["source", a["source"]]], "children": kids}
+
+
+def gen_anchor(r: Any) -> dict[str, Any]:
+    all_clean = r.random() < 0.45
+
+    def free(clean_pool: list[str]) -> str:
+        x = r.random()
+        if all_clean or x < 0.6:
+            return r.choice(clean_pool)
+        if x < 0.75:
+            return r.choice(HOSTILE_IDS)
+        return hostile_text(r)
+
+    n = r.choice([0, 1, 1, 2, 3, 5])
+    starts = r.sample(range(0, 4_000_000_000, 977), n)  # pairwise different validFrom: the order is determined
+    ds = []
+    for i in range(n):
+        vf = starts[i] * 1_000_000 + r.choice([0, 0, 1, 500_000, 999_999])
+        ds.append({
+            "id": free(["Kjqmt7v", "Klajeyz", "K_1", "label with spaces", "ünï", "a'b", "x>y", "", "K-2.3"]),
+            "keyTag": r.choice([0, 1, 19036, 20326, 65535, r.randint(0, 65535), -r.randint(1, 9), 10**12]),
+            "algorithm": r.choice([5, 7, 8, 10, 13, 14]),
+            "digestType": r.choice([1, 2, 2, 2]),
+            "digest": "".join(r.choice("0123456789abcdef") for _ in range(2 * r.choice([0, 1, 20, 32, 32, 32, 48]))),
+            "validFrom": vf,
+            "validUntil": r.choice([None, None, vf + r.randint(0, 10**15)]),
+        })
+    return {
+        "id": free(["ta-1", "380DC50D-484E-40D0-A3AE-68F2B18F61C7", "id with spaces", "ünï", "a'b", "x>y", "", "a=b/c;d"]),
+        "source": free([TA_SOURCE, "s", "", "https://example.org/?a=1;b=2", "x>y"]),
+        "zone": free([".", ".", ".", "example.", "", "a b", "x'y\"z", "zürich.", "a\tb\nc", "]]", "a]]b"]),
+        "keyDigests": ds,
+    }
+
+
+TA_SOURCE = "http://data.iana.org/root-anchors/root-anchors.xml"
+
+
+def write_anchor(a: dict[str, Any]) -> Any:
+    """the REAL writer: kskm.ta.data.TrustAnchor(...).to_xml_doc()"""
+    from kskm.common.data import AlgorithmDNSSEC
+    from kskm.ta.data import DigestDNSSEC, KeyDigest, TrustAnchor
+
+    def dt(us: int) -> datetime:
+        return lib.EPOCH + timedelta(microseconds=us)
+
+    def build_() -> str:
+        kds = {KeyDigest(id=d["id"], key_tag=d["keyTag"], algorithm=AlgorithmDNSSEC(d["algorithm"]), digest_type=DigestDNSSEC(d["digestType"]), digest=bytes.fromhex(d["digest"]),
+                         valid_from=dt(d["validFrom"]), valid_until=None if d["validUntil"] is None else dt(d["validUntil"])) for d in a["keyDigests"]}
+        return TrustAnchor(id=a["id"], source=a["source"], zone=a["zone"], key_digests=kds).to_xml_doc()
+
+    return lib.run_impl(build_, lambda x: x)
+
+
+def writer_direct_stream(r: Any, n: int, res: Result, driver_ok: bool) -> None:
+    anchors = [gen_anchor(r) for _ in range(n)]
+    # the clean corner and the corners of the hypotheses of C18_document_wellformed
+    anchors += [dict(gen_anchor(r), id="ta-1", source=TA_SOURCE, zone=z) for z in (".", "", "a>b", "a]]>b", "a\rb", "a\r\nb", "a\nb", " . ", "é")]
+    impls = []
+    for a in anchors:
+        if len({d["validFrom"] for d in a["keyDigests"]}) != len(a["keyDigests"]) or len({json.dumps(d, sort_keys=True) for d in a["keyDigests"]}) != len(a["keyDigests"]):
+            a["keyDigests"] = a["keyDigests"][:1]
+        res.count({"writer-direct": a})
+        impls.append(write_anchor(a))
+    outs = lib.run_driver([dict(a, op="ta_doc") for a in anchors], exe=DRIVER) if driver_ok else [None] * len(anchors)
+    for a, impl, o in zip(anchors, impls, outs):
+        case = {"writer-direct": a}
+        if "ok" not in impl:
+            res.bump("writer-direct:writer-raised")
+            res.disagreement("writer-direct: the real writer raised", case, impl, None)
+            continue
+        text = impl["ok"]
+        clean = attr_clean(a["id"]) and attr_clean(a["source"]) and text_clean(a["zone"]) and all(attr_clean(d["id"]) for d in a["keyDigests"])
+        res.bump("writer-direct:" + ("clean" if clean else "unclean") + f":entries={len(a['keyDigests'])}")
+        if any(d["digest"] == "" for d in a["keyDigests"]) or a["zone"] == "":
+            res.bump("writer-direct:empty-digest-or-zone (no text node)")
+        want = {"tree": expected_tree(a)}
+        if o is None:
+            e = et_read(text)
+        elif "driver_error" in o:
+            res.disagreement("writer-direct: driver error", case, None, o)
+            e = et_read(text)
+        else:
+            if o["doc"] != text:
+                res.disagreement("writer-direct: the model's document differs from the real writer's", case, text, o["doc"])
+            e = compare_std_read(case, text, o["read"], res, "writer-direct")
+            if clean and o["read"] != want:
+                res.disagreement("writer-direct: the specification reader does not obtain the anchor's tree from a clean document", case, want, o["read"])
+        if clean:
+            if e != want:
+                res.violation(WHAT_MEANING, case, key="meaning:clean", document=text[:400], read=e if e == "malformed" else "another tree")
+        else:
+            res.bump("boundary:writer-direct:unescaped-text:" + ("not-wellformed" if e == "malformed" else ("harmless" if e == want else "other-meaning")))
+
+
 def run(tier: str, driver_ok: bool) -> Result:
     with tzenv.zone(lib.TZ_ZONES[0]):  # whatever zone the check was started in: cases without "tz" run under UTC
         return _run(tier, driver_ok)
@@ -900,6 +1115,7 @@ def _run(tier: str, driver_ok: bool) -> Result:
         for _ in range(n // 5):
             ordinary.append(gen_case(r, i if r.random() < 0.5 else None))
     cases += ordinary
+    cases += hostile_id_cases(lib.rng("C18:hostile-id"), 60 if tier == "quick" else 400)
     # environment independence: the validity lattice, the naive-validity boundary and a slice of the blocks above, under UTC and under every other zone
     rz = lib.rng("C18:tz")
     slice_ = [c for c in ordinary if c["ksks"]][: 24 if tier == "quick" else 120] + exponent_length_cases(lib.rng("C18:tz:exponent-length"))[:: 9 if tier == "quick" else 3]
@@ -945,6 +1161,21 @@ def _run(tier: str, driver_ok: bool) -> Result:
             if case["variant"] == "naive-validity" and case.get("tz") and not JUDGE_NAIVE_VALIDITY:
                 continue  # the model reads a scalar without designator as UTC (lib.dt_us); recorded boundary, see NAIVE_VALIDITY
             compare_model(case, run_, o, res)
+        # every exported document (and every hostile one): specification reader vs ElementTree on the text the real entry point wrote
+        with_doc = [(c, x) for c, x in zip(cases, runs) if x["doc"] is not None]
+        reads = lib.run_driver([{"op": "std_read", "text": x["doc"]} for _, x in with_doc], exe=DRIVER)
+        for (case, run_), o in zip(with_doc, reads):
+            tag = "hostile-id" if case.get("hostile") else ("boundary-id" if case["variant"] == "boundary-id" else "export")
+            e = compare_std_read(case, run_["doc"], o if isinstance(o, (str, dict)) and "driver_error" not in o else {"driver_error": o}, res, tag)
+            if tag == "export" and o != "outside" and not (isinstance(o, dict) and "tree" in o) and attr_clean(case["id"] or FIXED_UUID) and not case["plan"]:
+                res.disagreement("std_read: an export with a clean identifier is not read as a tree by the specification reader", case, e, o)
+    writer_direct_stream(lib.rng("C18:writer-direct"), 400 if tier == "quick" else 4000, res, driver_ok)
+    res.notes.append(
+        "std_read: every exported document, the hostile identifiers (variant boundary-id, counters stdread:hostile-id:*) and the documents of the real writer for generated anchors "
+        "(writer-direct: hostile id / source / zone / labels, empty digests, negative and huge key tags) are read by the Lean specification reader XmlSpec.stdRead and by ElementTree; "
+        "the readings must agree (tree, or both not well-formed); references / comments / PIs / CDATA / namespaces / non-ASCII names are outside the reader's subset (counted unsupported). "
+        "With clean free text (attr_clean / text_clean: XML 1.0 [10], [14], 2.11, 3.3.3) ElementTree's tree must be the anchor's expected tree (violation otherwise); unclean text is the recorded unescaped-text boundary."
+    )
     res.notes.append(
         "naive-validity: a validity configured without a UTC designator (`valid_from: 2010-07-15T00:00:00` or `2010-07-15`; YAML and pydantic keep such a value naive) is rendered by "
         "KeyDigest.format_datetime through astimezone(timezone.utc), which reads a naive value as LOCAL time of the process: under UTC the document says what the configuration says, under any other "
@@ -958,6 +1189,16 @@ def replay(obj: dict[str, Any]) -> Any:
     v = obj.get("violation") or obj.get("disagreement") or obj
     case = v.get("case", v)
     r = Result("C18")
+    if "writer-direct" in case:
+        # a document of the real writer for a given anchor: writer, model document + specification reader, ElementTree, expected tree
+        a = case["writer-direct"]
+        impl = write_anchor(a)
+        out_: dict[str, Any] = {"case": case, "observed": impl, "expected_tree": expected_tree(a), "elementtree": et_read(impl["ok"]) if "ok" in impl else None}
+        try:
+            out_["model"] = lib.run_driver([dict(a, op="ta_doc")], exe=DRIVER)[0]
+        except Exception as exc:  # noqa: BLE001
+            out_["model"] = f"driver failed: {exc}"
+        return out_
     run_ = run_case(case)
     judge(case, run_, r)
     out: dict[str, Any] = {"case": case, "observed": {"impl": run_["impl"], "document": run_["doc"]}, "expected": sorted(expected_entries(case)[0], key=repr), "violations": [{"what": x["what"], "key": x.get("key")} for x in r.violations]}
